@@ -66,3 +66,179 @@ pub fn repo_lines() -> Vec<String> {
     }
     out
 }
+
+// ------------------------------------------------------------------ documents
+
+use crate::ast::render_program;
+use crate::gen::{self, GenCfg};
+
+#[derive(Debug, Clone)]
+enum DocMut {
+    BlankLine(u16),
+    Unnumbered(u16, u8),
+    BareNumber(u16, u16),
+    Duplicate(u16, u16, u8),
+    Untokenizable(u16, u8),
+    Boundary(u16, u8),
+    Garbage(u16, String),
+    Swap(u16, u16),
+    NonAscii(u16, u8),
+    Truncate(u16, u16),
+}
+
+fn idx(draw: u16, len: usize) -> usize {
+    ((draw as usize) * len) >> 16
+}
+
+const UNNUMBERED: &[&str] = &["PRINT 1", "REM no number", "  X = 2", "é", "RUN", "LIST", "\"", "GOTO 10", "x", "   "];
+const BAD_TAILS: &[&str] = &[" % 1", " \"open", " 1.2.3", " é", " 😊 = 1", " PRINT \"é", " X = 1 !", " &"];
+const BOUNDARY_LINES: &[&str] = &[
+    "18446744073709551615 PRINT 1",
+    "18446744073709551614 GOTO 18446744073709551615",
+    "18446744073709551616 PRINT 2",
+    "0 REM zero",
+    "00010 PRINT 3",
+    "99999999999999999999999 X = 1",
+    "9223372036854775808 GOSUB 0",
+    "4294967296 NEXT Q",
+];
+const NON_ASCII: &[&str] = &[" : REM é ü 😊", " : PRINT \"é\" + 1", " : Q$ = \"😊\" : GOTO 7", " : PRINT \"日本\"; X9", " : REM ñ"];
+
+fn doc_mut() -> impl Strategy<Value = DocMut> {
+    prop_oneof![
+        2 => any::<u16>().prop_map(DocMut::BlankLine),
+        2 => (any::<u16>(), 0u8..(UNNUMBERED.len() as u8)).prop_map(|(a, b)| DocMut::Unnumbered(a, b)),
+        3 => (any::<u16>(), any::<u16>()).prop_map(|(a, b)| DocMut::BareNumber(a, b)),
+        5 => (any::<u16>(), any::<u16>(), 0u8..5).prop_map(|(a, b, c)| DocMut::Duplicate(a, b, c)),
+        4 => (any::<u16>(), 0u8..(BAD_TAILS.len() as u8)).prop_map(|(a, b)| DocMut::Untokenizable(a, b)),
+        2 => (any::<u16>(), 0u8..(BOUNDARY_LINES.len() as u8)).prop_map(|(a, b)| DocMut::Boundary(a, b)),
+        2 => (any::<u16>(), "\\PC{0,12}").prop_map(|(a, b)| DocMut::Garbage(a, b)),
+        1 => (any::<u16>(), any::<u16>()).prop_map(|(a, b)| DocMut::Swap(a, b)),
+        3 => (any::<u16>(), 0u8..(NON_ASCII.len() as u8)).prop_map(|(a, b)| DocMut::NonAscii(a, b)),
+        2 => (any::<u16>(), any::<u16>()).prop_map(|(a, b)| DocMut::Truncate(a, b)),
+    ]
+}
+
+fn apply_doc_muts(mut lines: Vec<String>, muts: Vec<DocMut>) -> Vec<String> {
+    for m in muts {
+        let n = lines.len();
+        match m {
+            DocMut::BlankLine(p) => lines.insert(idx(p, n + 1), String::new()),
+            DocMut::Unnumbered(p, k) => lines.insert(idx(p, n + 1), UNNUMBERED[k as usize].to_string()),
+            DocMut::BareNumber(p, of) => {
+                if n > 0 {
+                    let num = line_number_text(&lines[idx(of, n)]);
+                    lines.insert(idx(p, n + 1), num);
+                }
+            }
+            DocMut::Duplicate(p, of, variant) => {
+                if n > 0 {
+                    let src = lines[idx(of, n)].clone();
+                    let num = line_number_text(&src);
+                    let new = match variant {
+                        0 => src,
+                        1 => format!("{} PRINT \"dup\"", num),
+                        2 => format!("{} X = 1 %", num),
+                        3 => format!("{} PRINT \"é", num),
+                        _ => format!("{} PRINT 1 +", num),
+                    };
+                    lines.insert(idx(p, n + 1), new);
+                }
+            }
+            DocMut::Untokenizable(p, k) => {
+                if n > 0 {
+                    let i = idx(p, n);
+                    lines[i].push_str(BAD_TAILS[k as usize]);
+                }
+            }
+            DocMut::Boundary(p, k) => lines.insert(idx(p, n + 1), BOUNDARY_LINES[k as usize].to_string()),
+            DocMut::Garbage(p, g) => lines.insert(idx(p, n + 1), g),
+            DocMut::Swap(a, b) => {
+                if n > 1 {
+                    lines.swap(idx(a, n), idx(b, n));
+                }
+            }
+            DocMut::NonAscii(p, k) => {
+                if n > 0 {
+                    let i = idx(p, n);
+                    lines[i].push_str(NON_ASCII[k as usize]);
+                }
+            }
+            DocMut::Truncate(p, at) => {
+                if n > 0 {
+                    let i = idx(p, n);
+                    let mut cut = idx(at, lines[i].len() + 1);
+                    while !lines[i].is_char_boundary(cut) {
+                        cut -= 1;
+                    }
+                    lines[i].truncate(cut);
+                }
+            }
+        }
+    }
+    lines
+}
+
+fn line_number_text(line: &str) -> String {
+    let t = line.trim_start();
+    let digits: String = t.chars().take_while(|c| c.is_ascii_digit()).collect();
+    if digits.is_empty() {
+        "10".to_string()
+    } else {
+        digits
+    }
+}
+
+/// Source-file texts: a generated program with document-level mutations.
+pub fn document() -> impl Strategy<Value = String> {
+    let cfg = GenCfg { max_blocks: 8, ..GenCfg::C03.with_input() };
+    (gen::program(cfg), gen::style(), prop::collection::vec(doc_mut(), 0..8), 0u8..10).prop_map(|(p, st, muts, crlf)| {
+        let lines = apply_doc_muts(render_program(&p, st), muts);
+        match crlf {
+            0 => lines.join("\r\n"),
+            1 => lines.iter().enumerate().map(|(i, l)| if i % 2 == 0 { format!("{}\r", l) } else { l.clone() }).collect::<Vec<_>>().join("\n"),
+            2 => format!("{}\n", lines.join("\n")),
+            _ => lines.join("\n"),
+        }
+    })
+}
+
+/// Character-level mutations of the repository's sample programs.
+pub fn mutated_repo_program() -> impl Strategy<Value = String> {
+    (0usize..2, prop::collection::vec((any::<u16>(), 0u8..6, any::<char>()), 1..10)).prop_map(|(which, muts)| {
+        let f = ["/repo/programs/chemist.bas", "/repo/programs/hamurabi.bas"][which];
+        let text = std::fs::read_to_string(f).unwrap_or_default();
+        let mut lines: Vec<String> = text.lines().map(|l| l.to_string()).collect();
+        for (p, kind, ch) in muts {
+            if lines.is_empty() {
+                break;
+            }
+            let i = idx(p, lines.len());
+            let ch = if ch == '\n' { ' ' } else { ch };
+            let l = &mut lines[i];
+            let mut at = idx(p.wrapping_mul(31), l.len() + 1);
+            while !l.is_char_boundary(at) {
+                at -= 1;
+            }
+            match kind {
+                0 => l.insert(at, ch),
+                1 => {
+                    if at < l.len() {
+                        l.remove(at);
+                    }
+                }
+                2 => l.truncate(at),
+                3 => {
+                    let d = l.clone();
+                    lines.insert(i, d);
+                }
+                4 => {
+                    let num = line_number_text(l);
+                    lines.push(num);
+                }
+                _ => l.insert(at, '"'),
+            }
+        }
+        lines.join("\n")
+    })
+}
